@@ -353,6 +353,18 @@ func RunR(api string, std bool, data []byte, dict []byte, sp SrcSpec, ctor strin
 		switch ctor {
 		case "new":
 			ra, err = newReader(api, std, src, dict)
+		case "reuse-same":
+			// one buffered source holding a complete first stream followed by the input: the first
+			// stream is read to its end, then the SAME source is passed to Reset (the pattern of gzip
+			// members and of concatenated raw streams).  Only for flate on a caller-supplied bufio.Reader.
+			first, _, _, _ := prior.Stream.Materialize()
+			kh.Write(first)
+			src, ss, left = mkSource(sp, append(append([]byte(nil), first...), data...), &delivered)
+			ra, err = newReader(api, std, src, dict)
+			if err == nil {
+				io.Copy(io.Discard, ra.r)
+				err = ra.reset(src)
+			}
 		default:
 			var first []byte
 			if ctor == "reuse" && prior != nil {
